@@ -340,7 +340,8 @@ class Engine:
             try:
                 out = fn(self)
                 self.outcomes[out] = self.outcomes.get(out, 0) + 1
-                if len(self.path_log) < self.keep_paths:
+                if self.keep_paths and (len(self.path_log) < self.keep_paths or (
+                        len(self.path_log) < 2 * self.keep_paths and out not in {p["outcome"] for p in self.path_log})):
                     self.path_log.append(dict(outcome=out, pc=list(self.pc), cf_apps=list(self.cf_apps)))
             except EngineAbort:
                 self.stats["pruned"] += 1
@@ -917,19 +918,46 @@ class SymStr:
                 x, y = eng.memo[key]
                 return cat(before + [x]), cat([y] + after)
             return None
-        if not eng.branch(z3.Contains(e, sep_e)):
+        # multi-character or symbolic separator: look for a *structural* occurrence first (the separator
+        # term itself as one part of the concatenation, or inside a constant part), and ask the solver only
+        # whether another occurrence precedes (follows) it.
+        parts = flatten(e)
+        n = z3.Length(sep_e)
+        sep_txt = z3str_to_py(sep_e) if z3.is_string_value(sep_e) else None
+        order = range(len(parts) - 1, -1, -1) if right else range(len(parts))
+        cand = None
+        for i in order:
+            pi = parts[i]
+            if pi.eq(sep_e):
+                cand = (parts[:i], parts[i + 1:])
+                break
+            if sep_txt is not None and z3.is_string_value(pi) and sep_txt in z3str_to_py(pi):
+                txt = z3str_to_py(pi)
+                h, t = txt.rsplit(sep_txt, 1) if right else txt.split(sep_txt, 1)
+                cand = (parts[:i] + [z3.StringVal(h)], [z3.StringVal(t)] + parts[i + 1:])
+                break
+        if cand is not None:
+            before, after = cat(cand[0]), cat(cand[1])
+            if right:
+                other = z3.Contains(z3.Concat(z3.SubString(sep_e, 1, n - 1), after), sep_e)
+            else:
+                other = z3.Contains(z3.Concat(before, z3.SubString(sep_e, 0, n - 1)), sep_e)
+            if not eng.branch(other):
+                return before, after
+        elif not eng.branch(z3.Contains(e, sep_e)):
             return None
         key = ("r" if right else "p", e.get_id(), sep_e.get_id())
         if key not in eng.memo:
             x, y = eng.fresh_str("h"), eng.fresh_str("t")
             eng.memo[key] = (x, y)
-            n = z3.Length(sep_e)
             if right:
                 eng.define(e == z3.Concat(x, sep_e, y),
                            z3.Not(z3.Contains(z3.Concat(z3.SubString(sep_e, 1, n - 1), y), sep_e)))
             else:
                 eng.define(e == z3.Concat(x, sep_e, y),
                            z3.Not(z3.Contains(z3.Concat(x, z3.SubString(sep_e, 0, n - 1)), sep_e)))
+            if z3.is_const(e) and e.decl().kind() == z3.Z3_OP_UNINTERPRETED:
+                eng.subst.append((e, z3.Concat(x, sep_e, y)))
         return eng.memo[key]
 
     def partition(self, sep):
